@@ -174,3 +174,14 @@ claim("C06",
       note="_fit_l1 / _kmeans_single_lloyd / _centers_dense (medians, empty-cluster relocation, best run) are ASSUMED in the proof and covered by the bounded "
            "stand-in only (two defects of that part were repaired). pairwise_distances_argmin_min / manhattan_distances are assumed contracts.",
       technique="deductive verification: Trace clauses for delegation, arg-min postconditions over a ghost Manhattan distance; z3")
+claim("C09",
+      text="Proof (Python side): PiecewiseTreeRegressor.predict dispatches on the criterion ('mselin' -> per-leaf regressions, otherwise the tree's own "
+           "predict on the same batch); _predict_reglin (loop invariant): every row is [X[r], 1] . betas_[leaf(r)] with the coefficients of its own leaf, "
+           "the design row is the features followed by one, input never written; fit creates the compiled criterion of the requested name, restores the name "
+           "on every exit (also when the tree fit raises) and fits the per-leaf regressions iff criterion == 'mselin'. Bounded (compiled code, exact rational "
+           "oracle): both 'simple' criteria through the exported accessors for ALL (start,pos,end) with non-empty children, n<=5 (7), unit/mixed weights, 3 "
+           "sample orders: node value, impurity, children impurities, improvement; 'mselin' leaf predictions vs lstsq; leaf means; max_depth/min_samples_leaf.",
+      note="The .pyx criteria, LAPACK and the scikit-learn tree builder are outside the Python executor (not applicable to the proof; the Cython stripper "
+           "planned in the design was not built). predict_leaves / _fit_reglin are assumed on the Python side. Known finding: the fast criterion caches "
+           "prefix sums in the init order, which the splitter then re-sorts.",
+      technique="deductive verification of the Python side (loop invariant over a ghost dot product, Trace clauses); criteria only by bounded enumeration")
